@@ -59,30 +59,125 @@ theorem run_reset (s : State) (hm : s.mode = .ground) :
 
 /-! ### `Difference::between` -/
 
-/-- `Difference::between` written out (all eight attributes in both generated lists). -/
-def betweenSpec (a b : Sgr.Style) : Difference :=
-  if a = b then .none
-  else if (a.bold && !b.bold) || (a.dimmed && !b.dimmed) || (a.italic && !b.italic) ||
-      (a.underline && !b.underline) || (a.blink && !b.blink) || (a.reverse && !b.reverse) ||
-      (a.hidden && !b.hidden) || (a.strike && !b.strike) then .reset
-  else if a.fg.isSome && b.fg.isNone then .reset
-  else if a.bg.isSome && b.bg.isNone then .reset
-  else .extra
-    { fg := if a.fg != b.fg then b.fg else none,
-      bg := if a.bg != b.bg then b.bg else none,
-      bold := a.bold != b.bold, dimmed := a.dimmed != b.dimmed, italic := a.italic != b.italic,
-      underline := a.underline != b.underline, blink := a.blink != b.blink,
-      reverse := a.reverse != b.reverse, hidden := a.hidden != b.hidden,
-      strike := a.strike != b.strike }
+theorem get_set (s : Sgr.Style) (a b : Attr) (v : Bool) :
+    (s.set a v).get b = if a = b then v else s.get b := by
+  cases a <;> cases b <;> simp [Style.set, Style.get]
 
-theorem between_eq (a b : Sgr.Style) : between a b = betweenSpec a b := by
-  unfold between betweenSpec
-  rw [resetAttrs_eq, extraAttrs_eq]
-  obtain ⟨afg, abg, a1, a2, a3, a4, a5, a6, a7, a8⟩ := a
-  obtain ⟨bfg, bbg, b1, b2, b3, b4, b5, b6, b7, b8⟩ := b
-  simp only [Attr.all, List.any, List.foldl, Style.get, Style.set, Bool.or_false]
-  cases a1 <;> cases a2 <;> cases a3 <;> cases a4 <;> cases a5 <;> cases a6 <;> cases a7 <;> cases a8 <;>
-    cases b1 <;> cases b2 <;> cases b3 <;> cases b4 <;> cases b5 <;> cases b6 <;> cases b7 <;> cases b8 <;>
+theorem set_fg (s : Sgr.Style) (a : Attr) (v : Bool) : (s.set a v).fg = s.fg := by
+  cases a <;> rfl
+
+theorem set_bg (s : Sgr.Style) (a : Attr) (v : Bool) : (s.set a v).bg = s.bg := by
+  cases a <;> rfl
+
+theorem fold_get (L : List Attr) (p : Attr → Bool) (init : Sgr.Style) (y : Attr) :
+    (L.foldl (fun acc x => if p x then acc.set x true else acc) init).get y =
+      (init.get y || (L.contains y && p y)) := by
+  induction L generalizing init with
+  | nil => simp
+  | cons x L ih =>
+    simp only [List.foldl_cons, ih, List.contains_cons]
+    by_cases hxy : x = y
+    · subst hxy
+      cases hp : p x <;> simp [get_set, hp]
+    · have : (y == x) = false := by simp [Ne.symm hxy]
+      cases hp : p x <;> simp [get_set, hxy, this]
+
+theorem fold_fg (L : List Attr) (p : Attr → Bool) (init : Sgr.Style) :
+    (L.foldl (fun acc x => if p x then acc.set x true else acc) init).fg = init.fg := by
+  induction L generalizing init with
+  | nil => rfl
+  | cons x L ih =>
+    simp only [List.foldl_cons, ih]
+    split <;> simp [set_fg]
+
+theorem fold_bg (L : List Attr) (p : Attr → Bool) (init : Sgr.Style) :
+    (L.foldl (fun acc x => if p x then acc.set x true else acc) init).bg = init.bg := by
+  induction L generalizing init with
+  | nil => rfl
+  | cons x L ih =>
+    simp only [List.foldl_cons, ih]
+    split <;> simp [set_bg]
+
+theorem all_contains (y : Attr) : Attr.all.contains y = true := by cases y <;> decide
+
+theorem ofStyle_get (st : Sgr.Style) :
+    ofStyle st = { fg := st.fg.map tcolor, bg := st.bg.map tcolor, bold := st.get .bold,
+                   faint := st.get .dimmed, italic := st.get .italic, underline := st.get .underline,
+                   blink := st.get .blink, inverse := st.get .reverse, conceal := st.get .hidden,
+                   crossed := st.get .strike } := by
+  simp only [ofStyle, overlay, Style.get, Bool.false_or]
+  cases st.fg <;> cases st.bg <;> rfl
+
+theorem rend_ext (x y : Rendition) (h1 : x.fg = y.fg) (h2 : x.bg = y.bg) (h3 : x.bold = y.bold)
+    (h4 : x.faint = y.faint) (h5 : x.italic = y.italic) (h6 : x.underline = y.underline)
+    (h7 : x.blink = y.blink) (h8 : x.inverse = y.inverse) (h9 : x.conceal = y.conceal)
+    (h10 : x.crossed = y.crossed) : x = y := by
+  cases x; cases y; simp_all
+
+/-- When `between` answers `ExtraStyles(e)`, writing `e`'s prefix on top of the first style's
+rendition gives exactly the second style's rendition. -/
+theorem between_extra (a b e : Sgr.Style) (h : between a b = .extra e) :
+    overlay (ofStyle a) e = ofStyle b := by
+  unfold between at h
+  split at h
+  · exact absurd h (by simp)
+  split at h
+  · exact absurd h (by simp)
+  next hany =>
+  split at h
+  · exact absurd h (by simp)
+  next hfg =>
+  split at h
+  · exact absurd h (by simp)
+  next hbg =>
+  simp only [Difference.extra.injEq] at h
+  rw [resetAttrs_eq] at hany
+  rw [extraAttrs_eq] at h
+  have hno : ∀ y : Attr, ¬ (a.get y = true ∧ b.get y = false) := by
+    intro y hy
+    apply hany
+    rw [List.any_eq_true]
+    exact ⟨y, by simpa using all_contains y, by simp [hy.1, hy.2]⟩
+  obtain ⟨F, hF⟩ : ∃ F, F = Attr.all.foldl
+      (fun acc x => if (a.get x != b.get x) = true then acc.set x true else acc) ({} : Sgr.Style) := ⟨_, rfl⟩
+  rw [← hF] at h
+  have hget : ∀ y : Attr, e.get y = (a.get y != b.get y) := by
+    intro y
+    have h1 : e.get y = F.get y := by rw [← h]; cases y <;> rfl
+    have h0 : ({} : Sgr.Style).get y = false := by cases y <;> rfl
+    rw [h1, hF, fold_get, all_contains, h0]
     simp
+  have hefg : e.fg = if a.fg != b.fg then b.fg else none := by rw [← h]
+  have hebg : e.bg = if a.bg != b.bg then b.bg else none := by rw [← h]
+  have key : ∀ y : Attr, (a.get y || e.get y) = b.get y := by
+    intro y
+    have := hno y
+    rw [hget y]
+    cases ha : a.get y <;> cases hb : b.get y <;> simp_all
+  have hfg' : (overlay (ofStyle a) e).fg = (ofStyle b).fg := by
+    simp only [overlay, ofStyle, hefg]
+    cases hafg : a.fg <;> cases hbfg : b.fg <;> simp_all
+    split <;> simp_all
+  have hbg' : (overlay (ofStyle a) e).bg = (ofStyle b).bg := by
+    simp only [overlay, ofStyle, hebg]
+    cases habg : a.bg <;> cases hbbg : b.bg <;> simp_all
+    split <;> simp_all
+  apply rend_ext
+  · exact hfg'
+  · exact hbg'
+  · exact key .bold
+  · exact key .dimmed
+  · exact key .italic
+  · exact key .underline
+  · exact key .blink
+  · exact key .reverse
+  · exact key .hidden
+  · exact key .strike
+
+theorem between_none (a b : Sgr.Style) (h : between a b = .none) : a = b := by
+  unfold between at h
+  split at h
+  · assumption
+  all_goals (repeat' split at h) <;> simp at h
 
 end SgrTerm
